@@ -236,15 +236,20 @@ func checkGoroutinePartition(p *Prog, r *Report, g *ModGraph) {
 		return
 	}
 	var lits []*ssa.Function
-	allCalls(do, func(c ssa.CallInstruction) {
-		if calleeName(c) == "(*golang.org/x/sync/errgroup.Group).Go" {
-			if mc, ok := c.Common().Args[1].(*ssa.MakeClosure); ok {
-				if f, ok := mc.Fn.(*ssa.Function); ok {
-					lits = append(lits, f)
+	for _, u := range g.unitFuncs(do) {
+		allCalls(u, func(c ssa.CallInstruction) {
+			if calleeName(c) == "(*golang.org/x/sync/errgroup.Group).Go" {
+				switch x := c.Common().Args[1].(type) {
+				case *ssa.MakeClosure:
+					if f, ok := x.Fn.(*ssa.Function); ok {
+						lits = append(lits, f)
+					}
+				case *ssa.Function:
+					lits = append(lits, x)
 				}
 			}
-		}
-	})
+		})
+	}
 	if len(lits) != 2 {
 		r.Bad(rule, "Do starts two goroutines", p.Pos(do.Pos()), fmt.Sprintf("found %d eg.Go literals", len(lits)))
 		return
@@ -378,15 +383,49 @@ func checkJoinAndWaitFor(p *Prog, r *Report) {
 		r.Cond(capOK, rule2, "waitFor: result channel is buffered", p.Pos(wf.Pos()), "an unbuffered result channel leaks the abandoned goroutine")
 	}
 	if do != nil && wf != nil {
-		n := 0
-		for _, lit := range do.AnonFuncs {
-			allCalls(lit, func(c ssa.CallInstruction) {
-				if c.Common().StaticCallee() == wf {
+		// the functions handed to eg.Go (literals, or method values) call waitFor
+		// themselves or through one direct callee
+		g := p.ModGraph()
+		n, total := 0, 0
+		for _, u := range g.unitFuncs(do) {
+			allCalls(u, func(c ssa.CallInstruction) {
+				if calleeName(c) != "(*golang.org/x/sync/errgroup.Group).Go" {
+					return
+				}
+				total++
+				var target *ssa.Function
+				switch x := c.Common().Args[1].(type) {
+				case *ssa.MakeClosure:
+					target, _ = x.Fn.(*ssa.Function)
+				case *ssa.Function:
+					target = x
+				}
+				if target == nil {
+					return
+				}
+				callsWait := func(f *ssa.Function) bool {
+					found := false
+					allCalls(f, func(cc ssa.CallInstruction) {
+						if cc.Common().StaticCallee() == wf {
+							found = true
+						}
+					})
+					return found
+				}
+				ok := callsWait(target)
+				if !ok {
+					for _, e := range g.Out[target] {
+						if e.To.Blocks != nil && pkgPathOfFunc(e.To) == pkgReceiver && callsWait(e.To) {
+							ok = true
+						}
+					}
+				}
+				if ok {
 					n++
 				}
 			})
 		}
-		r.Cond(n == 2, rule2, "Do: both goroutine bodies go through waitFor", p.Pos(do.Pos()), fmt.Sprintf("%d of 2", n))
+		r.Cond(n == 2 && total == 2, rule2, "Do: both goroutine bodies go through waitFor", p.Pos(do.Pos()), fmt.Sprintf("%d of %d eg.Go bodies", n, total))
 	}
 }
 
